@@ -121,27 +121,42 @@ pub fn check_stripper(src: &str) -> Verdict {
 }
 
 const ALPHABET: [&str; 7] = ["/", "*", "\n", "a", "\"", " ", "é"];
+/// The same with a carriage return (a bare CR is not a newline for the stripper); one symbol shorter.
+const ALPHABET_CR: [&str; 8] = ["/", "*", "\n", "a", "\"", " ", "é", "\r"];
 
-fn nth_string(len: usize, mut k: u64) -> String {
+fn nth_string(len: usize, k: u64) -> String {
+    nth_string_over(&ALPHABET, len, k)
+}
+
+fn nth_string_over(alphabet: &[&str], len: usize, mut k: u64) -> String {
     let mut s = String::new();
+    let n = alphabet.len() as u64;
     for _ in 0..len {
-        s.push_str(ALPHABET[(k % 7) as usize]);
-        k /= 7;
+        s.push_str(alphabet[(k % n) as usize]);
+        k /= n;
     }
     s
 }
 
 fn exhaustive_strings(ctx: &Ctx, max_len: usize, stats: &Stats) -> Vec<Failure> {
+    let mut out = exhaustive_strings_over(ctx, &ALPHABET, max_len, stats);
+    if out.is_empty() {
+        out = exhaustive_strings_over(ctx, &ALPHABET_CR, max_len - 1, stats);
+    }
+    out
+}
+
+fn exhaustive_strings_over(ctx: &Ctx, alphabet: &[&str], max_len: usize, stats: &Stats) -> Vec<Failure> {
     let mut out = Vec::new();
     for len in 0..=max_len {
-        let total = 7u64.pow(len as u32);
+        let total = (alphabet.len() as u64).pow(len as u32);
         let nchunks = 256u64.min(total);
         let chunks: Vec<(u64, u64)> = (0..nchunks).map(|i| (total * i / nchunks, total * (i + 1) / nchunks)).collect();
         let fails = run_items(ctx, &chunks, |_, (lo, hi)| {
             let mut first: Option<Bad> = None;
             let mut nontrivial = 0u64;
             for k in *lo..*hi {
-                let s = nth_string(len, k);
+                let s = nth_string_over(alphabet, len, k);
                 if let Ok(m) = comment_mask(s.as_bytes()) {
                     if m.iter().any(|b| *b) {
                         nontrivial += 1;
@@ -182,7 +197,7 @@ fn exhaustive_strings(ctx: &Ctx, max_len: usize, stats: &Stats) -> Vec<Failure> 
 /// Long random strings over comment-relevant fragments.
 fn random_string_case(tape: &[u8], rec: &Rec) -> Verdict {
     const FRAGS: [&str; 24] = [
-        "/", "*", "\n", "a", "\"", " ", "é", "//", "/*", "*/", "**", "***/", "/**/", "/***/", "\r\n", "\t",
+        "/", "*", "\n", "a", "\"", " ", "é", "//", "/*", "*/", "**", "***/", "/**/", "/***/", "\r\n", "\r",
         "x = y / z;", "/* c */", "// c\n", "日本", "*/*", "/*/", "//*", "var a;",
     ];
     let mut t = Tape::new(tape);
@@ -408,12 +423,12 @@ pub fn run(ctx: &Ctx) -> i32 {
         &outcome,
         EvidenceSpec {
             level: "exploration",
-            rule: "(1) parser::preprocess vs a reference comment lexer (same Ok/Err, same byte length, code bytes untouched, comment bytes blank): exhaustively all strings up to the stated length over {/,*,\\n,a,\",space,é} and generated long strings from comment-relevant fragments; (2) generated Circom programs with comments of every shape between tokens, run through the real binary: findings equal after blanking comments in place (positions included), equal modulo positions after removing them, same definitions analysed; (3) an unterminated opener injected at a token boundary must give an error diagnostic and a non-zero exit. Non-trivial = string/program containing at least one complete comment; distinct by content hash (exhaustive strings are distinct by construction and counted in exhaustive_distinct_nontrivial).",
+            rule: "(1) parser::preprocess vs a reference comment lexer (same Ok/Err, same byte length, code bytes untouched, comment bytes blank): exhaustively all strings up to the stated length over {/,*,\\n,a,\",space,é} (one symbol shorter with \\r added) and generated long strings from comment-relevant fragments; (2) generated Circom programs with comments of every shape between tokens, run through the real binary: findings equal after blanking comments in place (positions included), equal modulo positions after removing them, same definitions analysed; (3) an unterminated opener injected at a token boundary must give an error diagnostic and a non-zero exit. Non-trivial = string/program containing at least one complete comment; distinct by content hash (exhaustive strings are distinct by construction and counted in exhaustive_distinct_nontrivial).",
             assumptions: vec![
                 "string literals get no special treatment by the comment lexer (as in Circom's own preprocessor): `//` inside a string starts a comment; the reference does the same".into(),
                 "inside a comment a whitespace byte may be kept instead of blanked".into(),
             ],
-            extra: json!({"exhaustive": true, "exhaustive_scope": format!("stripper strings of length <= {max_len} over a 7-symbol alphabet; programs are sampled"), "exhaustive_distinct_nontrivial": exhaustive_nontrivial, "coverage_guided_stage": fuzz}),
+            extra: json!({"exhaustive": true, "exhaustive_scope": format!("stripper strings of length <= {max_len} over a 7-symbol alphabet and of length <= {} over the same alphabet plus a bare carriage return; programs are sampled", max_len - 1), "exhaustive_distinct_nontrivial": exhaustive_nontrivial, "coverage_guided_stage": fuzz}),
         },
         start,
     )
